@@ -454,6 +454,28 @@ func narrowW(a, b *Term) int {
 	return 0
 }
 
+// narrowMulW returns a width in which a*b is exact (operands and product fit).
+func narrowMulW(a, b *Term) int {
+	ma, mb := abs64(a.SLo), abs64(b.SLo)
+	if abs64(a.SHi) > ma {
+		ma = abs64(a.SHi)
+	}
+	if abs64(b.SHi) > mb {
+		mb = abs64(b.SHi)
+	}
+	if ma >= 1<<31 || mb >= 1<<31 {
+		return 0
+	}
+	p := ma * mb
+	switch {
+	case p < 1<<15 && ma < 1<<15 && mb < 1<<15:
+		return 16
+	case p < 1<<31:
+		return 32
+	}
+	return 0
+}
+
 // ---------- constructors ----------
 
 func (c *Ctx) Bool(b bool) *Term {
@@ -726,7 +748,11 @@ func (c *Ctx) BinBV(op Op, a, b *Term) *Term {
 	if w == 64 && (op == OSDiv || op == OSRem || op == OMul) && !a.IsConst() && !b.IsConst() {
 		// both operands provably small: compute in a narrow width (the
 		// products / quotients fit, so the sign-extended result is exact)
-		if nw := narrowW(a, b); nw > 0 {
+		nw := narrowW(a, b)
+		if op == OMul {
+			nw = narrowMulW(a, b)
+		}
+		if nw > 0 {
 			na, nb := c.Extract(a, nw-1, 0), c.Extract(b, nw-1, 0)
 			return c.SExt(c.bin(op, BV(nw), na, nb), 64)
 		}
